@@ -317,39 +317,5 @@ Proof.
   specialize (A t0). destruct (b_pc s t0); cbn in *; auto; try (destruct to; auto); destruct A as (X & Y & _); repeat split; auto; discriminate.
 Qed.
 
-Ltac bt_inner :=
-  repeat first
-    [ assumption
-    | apply BT_sw | apply BT_rw | apply BT_closed | apply BT_cnt | apply BT_q | apply BT_head | apply BT_pushed | apply BT_popped
-    | apply BT_setrun
-    | apply (BT_wakes (fun s => sem_signal s _ _)); [apply bwo_sem_signal|]
-    | apply (BT_wakes (fun s => sem_after_timeout s _)); [apply bwo_sem_after_timeout|]
-    | match goal with E : sem_try _ _ = Some ?b |- BT ?b => eapply sem_try_wo; [exact E|] end ].
-
-Ltac bt_other :=
-  let t0 := fresh "t0" in let Ne := fresh "Ne" in
-  intros t0 Ne; unfold sem_sleep, put_sem; cbn;
-  repeat match goal with |- context [match ?x with SendSem => _ | RecvSem => _ end] => destruct x; cbn end;
-  unfold upd; destruct (Nat.eqb_spec t0 _); [contradiction|auto].
-
-Lemma BT_bstep fx mcap s t s' : BT s -> bstep fx mcap s t = Some s' -> BT s'.
-Proof.
-  intros U H. pose proof (bt_thr _ U t) as Ht. unfold bstep in H.
-  destruct (b_w s t) as [| |b] eqn:Ew; [|discriminate|].
-  all: destruct (b_pc s t) eqn:Epc.
-  all: try (destruct (b_prog s t) as [|[] ?]; [discriminate|..]).
-  all: repeat match type of H with
-       | context [if ?b then _ else _] => destruct b eqn:?
-       | context [match ?m with MTry => _ | MBlock _ => _ end] => destruct m
-       | context [match sem_try ?a ?b with _ => _ end] => destruct (sem_try a b) eqn:?
-       | context [match b_q ?s with _ => _ end] => destruct (b_q s) as [|[? []] ?] eqn:?
-       end.
-  all: inversion H; subst; clear H; auto.
-  all: cbn in Ht.
-  all: try match goal with
-       | |- BT (bfinish ?x _ _ _ _ _ _) => apply (BT_upd x _ t); [bt_inner | reflexivity | bt_other | cbn; rewrite upd_same; exact I | ]
-       | |- BT (bgoto ?x _ _) => apply (BT_upd x _ t); [bt_inner | reflexivity | bt_other | | ]
-       | |- BT (sem_sleep ?x ?w _ _ _) => apply (BT_upd x _ t); [bt_inner | destruct w; reflexivity | bt_other | | ]
-       end.
-  all: idtac "REM". Show.
-Abort.
+(* The step lemma `BT s -> bstep fx mcap s t = Some s' -> BT s'` (and with it chan_timeout_reason_buffered) is NOT
+   finished: the infrastructure above is what it needs; see notes/C09.md. *)
